@@ -135,6 +135,9 @@ func (run *FuncRun) callFunction(st *State, in *ssa.Call, b *ssa.BasicBlock, idx
 // inlineTag names an inlined frame for loop-invariant lookup: the callee's
 // short name, with #n for the n-th inlined call of that callee on this path.
 func (run *FuncRun) inlineTag(st *State, fn *ssa.Function) string {
+	if fn.Synthetic != "" && !strings.HasPrefix(fn.Synthetic, "instance of") {
+		return st.frame.inlineTag // compiler-generated wrapper: transparent
+	}
 	name := fn.Name()
 	if o := fn.Origin(); o != nil {
 		name = o.Name()
